@@ -305,6 +305,18 @@ func c13History(c *Ctx, st *c13State, raw json.RawMessage) {
 	uniq := fmt.Sprintf("<%%# h%d.%d %%>", c.Seed, st.n)
 	items := map[string]*corpusItem{"t1": &st.corpus[i1], "t2": &st.corpus[i2]}
 	text := map[string]string{"t1": st.corpus[i1].Src + uniq, "t2": st.corpus[i2].Src + uniq, "bad": "<%= 1 +" + uniq + "<% ) %>"}
+	// every other history: t2 is a near twin of t1 (same program, differing only in blank space at an
+	// end, in letter case of literal text, or by one trailing byte): still a different text
+	switch st.n % 8 {
+	case 1:
+		items["t2"], text["t2"] = items["t1"], text["t1"]+"\n"
+	case 3:
+		items["t2"], text["t2"] = items["t1"], " \t"+text["t1"]
+	case 5:
+		items["t2"], text["t2"] = items["t1"], text["t1"]+" "
+	case 7:
+		items["t2"], text["t2"] = items["t1"], "\n"+text["t1"]+"\n"
+	}
 	shape := ""
 	if len(cs.Hist) >= 2 {
 		shape = fmt.Sprintf("%d/%s/%s", st.n, st.corpus[i1].Label, st.corpus[i2].Label)
@@ -388,6 +400,17 @@ func c13History(c *Ctx, st *c13State, raw json.RawMessage) {
 		}
 	}
 	plush.CacheEnabled = false
+	// independent of the history: every result must be the one a fresh parse gives with the cache off
+	for k, r := range results {
+		x, d := k[:2], k[3:]
+		ref, o := c13Exec(items[x], func(ctx *plush.Context) (string, error) { return plush.Render(text[x], ctx) })
+		if o.Hang || o.Panic != "" {
+			continue
+		}
+		if ref != r {
+			c.Fail("history:differs-from-cold-render", fmt.Sprintf("history %d: %q with %s gave %+v in the history, %+v when rendered alone with the cache off", st.n, text[x], d, r, ref), cas)
+		}
+	}
 }
 
 // c13Trace validates the Parse / CacheSet events of the repository's tests against CacheTrace.tla.
